@@ -465,7 +465,10 @@ impl Engine for C13 {
             let fs_fault_fired = !obs.proc.fs_faults_fired.is_empty();
             let stderr_txt = String::from_utf8_lossy(&obs.stderr);
             if !sc.faulty && stderr_txt.contains("os error") {
-                st.harness_error(format!("file-system error surfaced in a fault-free run (un-modelled call?): {}", stderr_txt.lines().find(|l| l.contains("os error")).unwrap_or("")));
+                // not an error by itself (an implementation may well report a file it did not find); the
+                // fail-closed detector proper is the list of un-modelled calls, and a simulated disk that
+                // did not work would show in the reach probes
+                st.bump("note.os_error_text_on_stderr_of_a_fault_free_run");
             }
             digest = fnv64_add(digest, &[ri as u8]);
             if let Some(p) = &obs.panic {
